@@ -510,7 +510,7 @@ Proof.
   - unfold Qle; cbn. lia.
   - unfold Qle; cbn [Qnum Qden Qmult]. rewrite Pos2Z.inj_mul, HD.
     apply Z.le_trans with (N * Zpos d)%Z; [apply Z.mul_le_mono_nonneg_r; lia | unfold N; apply Z.eq_le_incl; ring].
-  - setoid_replace ((s # D) + (1 # D)) with ((s + 1) # D) by (unfold Qeq; cbn; ring).
+  - setoid_replace ((s # D) + (1 # D)) with ((s + 1)%Z # D) by (unfold Qeq; cbn [Qnum Qden Qplus]; rewrite Pos2Z.inj_mul; ring).
     unfold Qlt; cbn [Qnum Qden Qmult]. rewrite Pos2Z.inj_mul, HD.
     apply Z.le_lt_trans with (N * Zpos d)%Z; [unfold N; apply Z.eq_le_incl; ring|].
     apply Z.mul_lt_mono_pos_r; [lia|]. unfold Z.succ in S2. lia.
@@ -530,4 +530,151 @@ Proof.
     + assert (L : bc < c). { apply Qnot_le_lt. intro X. apply Qle_bool_iff in X. congruence. }
       destruct (IH bi bt bc (S i)) as [A B]. split; [exact A|].
       intros th' c' [X | X]; [injection X as <- <-; eapply Qle_trans; [exact A | now apply Qlt_le_weak] | eapply B; eauto].
+Qed.
+
+(* ================================================================== Rotosolve / Rotoselect closed form, over the reals *)
+From Coq Require Import Reals Lra.
+Local Close Scope Q_scope.
+Local Open Scope R_scope.
+
+(* numpy.arctan2(y, x) for finite arguments *)
+Definition atan2 (y x : R) : R :=
+  if Rlt_dec 0 x then atan (y / x)
+  else if Rlt_dec x 0 then (if Rle_dec 0 y then atan (y / x) + PI else atan (y / x) - PI)
+  else if Rlt_dec 0 y then PI / 2 else if Rlt_dec y 0 then - (PI / 2) else 0.
+
+Lemma atan_polar : forall t, cos (atan t) > 0 /\ sin (atan t) = t * cos (atan t).
+Proof.
+  intros t. pose proof (atan_bound t) as [B1 B2].
+  assert (Hc : cos (atan t) > 0) by (apply cos_gt_0; lra).
+  split; [exact Hc|]. pose proof (atan_right_inv t) as E. unfold tan in E.
+  rewrite <- E at 2. field. lra.
+Qed.
+
+Lemma atan2_polar : forall y x, exists r, 0 <= r /\ x = r * cos (atan2 y x) /\ y = r * sin (atan2 y x).
+Proof.
+  intros y x. unfold atan2. destruct (Rlt_dec 0 x) as [Hx | Hx].
+  - destruct (atan_polar (y / x)) as [Hc Hs]. exists (x / cos (atan (y / x))). repeat split.
+    + apply Rlt_le, Rdiv_lt_0_compat; lra.
+    + field. lra.
+    + rewrite Hs. field. split; lra.
+  - destruct (Rlt_dec x 0) as [Hx' | Hx'].
+    + destruct (atan_polar (y / x)) as [Hc Hs]. exists (- x / cos (atan (y / x))).
+      assert (R0 : 0 <= - x / cos (atan (y / x))) by (apply Rlt_le, Rdiv_lt_0_compat; lra).
+      destruct (Rle_dec 0 y).
+      * rewrite neg_cos, neg_sin. repeat split; [exact R0 | field; lra | rewrite Hs; field; split; lra].
+      * unfold Rminus. rewrite cos_plus, sin_plus, cos_neg, sin_neg, cos_PI, sin_PI.
+        repeat split; [exact R0 | field; lra | rewrite Hs; field; split; lra].
+    + assert (x = 0) by lra. subst x. destruct (Rlt_dec 0 y).
+      * exists y. rewrite cos_PI2, sin_PI2. repeat split; lra.
+      * destruct (Rlt_dec y 0).
+        -- exists (- y). rewrite cos_neg, sin_neg, cos_PI2, sin_PI2. repeat split; lra.
+        -- exists 0. repeat split; lra.
+Qed.
+
+(* RotosolveOptimizer.min_analytic, transcribed: objective_fn = f, freq, f0 = f 0 *)
+Definition roto_shift (freq : R) : R := / 2 * PI / freq.
+Definition roto_B (f : R -> R) (freq : R) : R :=
+  let s := roto_shift freq in atan2 (2 * f 0 - f s - f (- s)) (f s - f (- s)).
+Definition roto_xmin (f : R -> R) (freq : R) : R :=
+  let s := roto_shift freq in
+  let x := - s - roto_B f freq / freq in
+  if Rle_dec x (- 2 * s) then x + 4 * s else x.
+Definition roto_ymin (f : R -> R) (freq : R) : R :=
+  let s := roto_shift freq in
+  let C := / 2 * (f s + f (- s)) in
+  - sqrt ((f 0 - C) ^ 2 + / 4 * (f s - f (- s)) ^ 2) + C.
+
+Section Rotosolve.
+  Variables (f : R -> R) (C p q freq : R).
+  Hypothesis Hfreq : 0 < freq.
+  Hypothesis Hf : forall t, f t = C + p * sin (freq * t) + q * cos (freq * t).
+
+  Let s := roto_shift freq.
+  Lemma fs_eq : freq * s = PI / 2.
+  Proof. unfold s, roto_shift. field. lra. Qed.
+  Lemma f_0 : f 0 = C + q.
+  Proof. rewrite Hf, Rmult_0_r, sin_0, cos_0. ring. Qed.
+  Lemma f_p : f s = C + p.
+  Proof. rewrite Hf, fs_eq, sin_PI2, cos_PI2. ring. Qed.
+  Lemma f_m : f (- s) = C - p.
+  Proof.
+    rewrite Hf. replace (freq * - s) with (- (PI / 2)) by (rewrite <- fs_eq; ring).
+    rewrite sin_neg, cos_neg, sin_PI2, cos_PI2. ring.
+  Qed.
+
+  Lemma roto_core : exists r, 0 <= r /\ 2 * p = r * cos (roto_B f freq) /\ 2 * q = r * sin (roto_B f freq).
+  Proof.
+    unfold roto_B. fold s. rewrite f_0, f_p, f_m.
+    destruct (atan2_polar (2 * (C + q) - (C + p) - (C - p)) (C + p - (C - p))) as [r [H0 [H1 H2]]].
+    exists r. repeat split; [exact H0 | rewrite <- H1; ring | rewrite <- H2; ring].
+  Qed.
+
+  Lemma f_lower : forall r, 0 <= r -> 2 * p = r * cos (roto_B f freq) -> 2 * q = r * sin (roto_B f freq) ->
+    forall t, C - r / 2 <= f t.
+  Proof.
+    intros r H0 H1 H2 t. rewrite Hf.
+    replace (C + p * sin (freq * t) + q * cos (freq * t)) with (C + r / 2 * sin (freq * t + roto_B f freq)).
+    - pose proof (SIN_bound (freq * t + roto_B f freq)) as [L _].
+      assert (0 <= r / 2 * (sin (freq * t + roto_B f freq) + 1)) by (apply Rmult_le_pos; lra). lra.
+    - rewrite sin_plus. replace p with (r * cos (roto_B f freq) / 2) by lra.
+      replace q with (r * sin (roto_B f freq) / 2) by lra. field.
+  Qed.
+
+  Lemma f_at : forall r x, 2 * p = r * cos (roto_B f freq) -> 2 * q = r * sin (roto_B f freq) ->
+    freq * x = - (PI / 2) - roto_B f freq \/ freq * x = - (PI / 2) - roto_B f freq + 2 * PI -> f x = C - r / 2.
+  Proof.
+    intros r x H1 H2 Hx. rewrite Hf.
+    assert (E : sin (freq * x) = - cos (roto_B f freq) /\ cos (freq * x) = - sin (roto_B f freq)).
+    { assert (E0 : sin (- (PI / 2) - roto_B f freq) = - cos (roto_B f freq) /\
+                   cos (- (PI / 2) - roto_B f freq) = - sin (roto_B f freq)).
+      { unfold Rminus. rewrite sin_plus, cos_plus, !sin_neg, !cos_neg, sin_PI2, cos_PI2. split; ring. }
+      destruct Hx as [-> | ->]; [exact E0|].
+      replace (- (PI / 2) - roto_B f freq + 2 * PI) with (- (PI / 2) - roto_B f freq + PI + PI) by ring.
+      rewrite neg_sin, neg_sin, neg_cos, neg_cos. destruct E0 as [-> ->]. split; ring. }
+    destruct E as [-> ->]. pose proof (sin2_cos2 (roto_B f freq)) as T. unfold Rsqr in T.
+    transitivity (C - r / 2 * (sin (roto_B f freq) * sin (roto_B f freq) + cos (roto_B f freq) * cos (roto_B f freq)));
+      [|rewrite T; ring].
+    replace p with (r * cos (roto_B f freq) / 2) by lra.
+    replace q with (r * sin (roto_B f freq) / 2) by lra. field.
+  Qed.
+
+  Lemma xmin_angle : freq * roto_xmin f freq = - (PI / 2) - roto_B f freq \/
+                     freq * roto_xmin f freq = - (PI / 2) - roto_B f freq + 2 * PI.
+  Proof.
+    unfold roto_xmin. fold s. destruct (Rle_dec (- s - roto_B f freq / freq) (- 2 * s)); [right | left].
+    - replace (freq * (- s - roto_B f freq / freq + 4 * s)) with (- (freq * s) - roto_B f freq + 4 * (freq * s)) by (field; lra).
+      rewrite fs_eq. field.
+    - replace (freq * (- s - roto_B f freq / freq)) with (- (freq * s) - roto_B f freq) by (field; lra).
+      rewrite fs_eq. ring.
+  Qed.
+
+  Theorem rotosolve_min : forall t, f (roto_xmin f freq) <= f t.
+  Proof.
+    intros t. destruct roto_core as [r [H0 [H1 H2]]].
+    rewrite (f_at r _ H1 H2 xmin_angle). now apply f_lower.
+  Qed.
+
+  Theorem rotosolve_ymin : roto_ymin f freq = f (roto_xmin f freq).
+  Proof.
+    destruct roto_core as [r [H0 [H1 H2]]]. rewrite (f_at r _ H1 H2 xmin_angle).
+    unfold roto_ymin. fold s. rewrite f_0, f_p, f_m.
+    replace ((C + q - / 2 * (C + p + (C - p))) ^ 2 + / 4 * (C + p - (C - p)) ^ 2) with ((r / 2) * (r / 2)).
+    - rewrite sqrt_square by lra. field.
+    - pose proof (sin2_cos2 (roto_B f freq)) as T. unfold Rsqr in T.
+      transitivity (r / 2 * (r / 2) * (sin (roto_B f freq) * sin (roto_B f freq) + cos (roto_B f freq) * cos (roto_B f freq)));
+        [rewrite T; ring|].
+      replace p with (r * cos (roto_B f freq) / 2) by lra.
+      replace q with (r * sin (roto_B f freq) / 2) by lra. field.
+  Qed.
+
+End Rotosolve.
+
+(* the amplitude / phase form of the property text *)
+Lemma rotosolve_min_phase : forall (f : R -> R) (A phi C freq : R), 0 < freq ->
+  (forall t, f t = A * sin (freq * t + phi) + C) ->
+  forall t, f (roto_xmin f freq) <= f t.
+Proof.
+  intros f A phi C freq Hfr Hf. apply (rotosolve_min f C (A * cos phi) (A * sin phi) freq Hfr).
+  intros t. rewrite Hf, sin_plus. ring.
 Qed.
